@@ -5,6 +5,14 @@
 name="$1"; wt="$2"; demo="$3"; pid="$4"; shift 4
 set -e
 cd "$wt"
+# the worktree may have been created before a fix: commit landed in /repo; move the change onto /repo's HEAD
+head=$(git -C /repo rev-parse HEAD)
+if [ "$(git rev-parse HEAD)" != "$head" ]; then
+  git diff -- mosaik > /tmp/seed-$name.rebase.diff
+  git checkout -q -- mosaik
+  git checkout -q --detach "$head"
+  git apply /tmp/seed-$name.rebase.diff
+fi
 git diff -- mosaik > /tmp/seed-$name.diff
 test -s /tmp/seed-$name.diff || { echo "empty patch"; exit 3; }
 echo "== demo with change (expect FAIL/exit 1)"
